@@ -8,8 +8,10 @@ cd "$ROOT/harness" && cp /repo/go.sum go.sum && go1.26 build -tags verif -o "$RO
 rc=0
 for d in "$ROOT"/spec/*/; do
   T="$(mktemp -d /var/tmp/verif-sany-XXXXXX)"
+  cp "$ROOT"/spec/core/*.tla "$T"/ 2>/dev/null   # modules of other directories may extend the core modules
   cp "$d"/*.tla "$T"/ 2>/dev/null
-  for f in "$T"/*.tla; do
+  for g in "$d"/*.tla; do
+    f="$T/$(basename "$g")"
     out="$(cd "$T" && timeout 120 tla-sany "$(basename "$f")" 2>&1)"
     if echo "$out" | grep -q "Fatal errors\|\*\*\* Errors\|Could not parse\|Lexical error\|Parse Error"; then echo "SANY failed: $f"; echo "$out" | tail -20; rc=1; fi
   done
